@@ -147,7 +147,7 @@ func matchControlSequence(s string) int {
 
 func isCtrlSeqStart(c uint8) bool {
 	switch c {
-	case '\\', '[', '(', ')':
+	case '[', '(', ')':
 		return true
 	}
 	return false
